@@ -43,6 +43,10 @@ type csgObs struct {
 	BB  []int   `json:"bb"`  // outward rounded, units 2^-10 (min..., max...)
 	V   []int   `json:"v"`   // Evaluate on the window, units 1e-6; 0 iff |f| <= 1e-9
 	NaN int     `json:"nan"` // number of NaN results
+	// slow = 2 only: window points where a Union2D's pruned value differs from EvaluateSlow, split by whether the
+	// operand holding the minimum undercuts the distance to its own bounding box
+	Under int `json:"under"`
+	Legit int `json:"legit"`
 }
 
 // slowUnion2 evaluates a real UnionSDF2 without its bounding-box pruning (attribution only).
@@ -52,6 +56,36 @@ func (s slowUnion2) Evaluate(p v2.Vec) float64 { return s.u.EvaluateSlow(p) }
 func (s slowUnion2) BoundingBox() sdf.Box2     { return s.u.BoundingBox() }
 
 var csgSlowUnion bool
+
+// probeUnion2 (attribution only, slow = 2): evaluates the real union as it is, and where the pruned value differs
+// from EvaluateSlow records whether the operand that holds the minimum reports less than the distance to its own
+// bounding box (outside it). Only then can pruning by box distance not be exact (the recorded limitation);
+// any other difference means a legitimate operand was pruned.
+type probeUnion2 struct {
+	u    *sdf.UnionSDF2
+	c, d sdf.SDF2
+}
+
+var csgProbeUnion bool
+var csgProbeUnder, csgProbeLegit int
+
+func (s probeUnion2) Evaluate(p v2.Vec) float64 {
+	f, sl := s.u.Evaluate(p), s.u.EvaluateSlow(p)
+	if f != sl {
+		h, hv := s.c, s.c.Evaluate(p)
+		if dv := s.d.Evaluate(p); dv < hv {
+			h, hv = s.d, dv
+		}
+		md := math.Sqrt(h.BoundingBox().MinMaxDist2(p)[0])
+		if md > 0 && hv < md*(1-1e-9)-1e-12 {
+			csgProbeUnder++
+		} else {
+			csgProbeLegit++
+		}
+	}
+	return f
+}
+func (s probeUnion2) BoundingBox() sdf.Box2 { return s.u.BoundingBox() }
 
 func fa(a []int, i int) float64 { return float64(a[i]) }
 
@@ -107,6 +141,9 @@ func csgBuild2(n csgNode) (sdf.SDF2, error) {
 			u := sdf.Union2D(c, d)
 			if uu, ok := u.(*sdf.UnionSDF2); ok && csgSlowUnion {
 				return slowUnion2{uu}, nil
+			}
+			if uu, ok := u.(*sdf.UnionSDF2); ok && csgProbeUnion {
+				return probeUnion2{uu, c, d}, nil
 			}
 			return u, nil
 		case "diff2":
@@ -280,6 +317,9 @@ func csgObserve(v csgVec) (o csgObs) {
 	}()
 	w := v.W
 	csgSlowUnion = v.Slow == 1
+	csgProbeUnion = v.Slow == 2
+	csgProbeUnder, csgProbeLegit = 0, 0
+	defer func() { o.Under, o.Legit = csgProbeUnder, csgProbeLegit }()
 	if v.Dim == 2 {
 		s, err := csgBuild2(v.E)
 		if err != nil || s == nil {
